@@ -12,7 +12,7 @@
    Definitions only; everything is executable and total. *)
 From Coq Require Import List NArith Bool Arith.
 Import ListNotations.
-From DDP Require Import Gen.Tokens Alias.OMap Alias.Trie Alias.TokKey.
+From DDP Require Import Gen.Tokens Gen.AliasArgs Alias.OMap Alias.Trie Alias.TokKey.
 Local Open Scope nat_scope.
 
 (* ---- types as ddptypes.Equal / UnifyGenericType see them (generic structs are out of scope) ---- *)
@@ -174,11 +174,13 @@ Definition at_end (c : nat) : bool := N.eqb (peek_tt c) tt_EOF.
 (* p.advance(): returns the consumed token (EOF and no move at the end) *)
 Definition advance (c : nat) : nat := if at_end c then c else S c.
 
-Definition is_single (t : N) : bool :=
-  N.eqb t tt_INT || N.eqb t tt_FLOAT || N.eqb t tt_TRUE || N.eqb t tt_FALSE || N.eqb t tt_CHAR ||
-  N.eqb t tt_STRING || N.eqb t tt_IDENTIFIER || N.eqb t tt_SYMBOL.
-Definition is_neg_operand (t : N) : bool :=
-  N.eqb t tt_INT || N.eqb t tt_FLOAT || N.eqb t tt_IDENTIFIER || N.eqb t tt_SYMBOL.
+(* the token types that start an argument unit are regenerated from alias.go (Gen/AliasArgs.v):
+   the lists named match: key generator of alias(); the lists named check: checkAlias *)
+Definition mem_tt (t : N) (l : list N) : bool := existsb (N.eqb t) l.
+Definition is_single (t : N) : bool := mem_tt t arg_single_match.
+Definition is_neg_operand (t : N) : bool := mem_tt t arg_neg_match.
+Definition is_single_c (t : N) : bool := mem_tt t arg_single_check.
+Definition is_neg_operand_c (t : N) : bool := mem_tt t arg_neg_check.
 
 (* for numLparens > 0 && !p.atEnd() { switch p.advance().Type { LPAREN: ++; RPAREN: -- } } ;
    l = the tokens from the cursor on. Returns the cursor after the loop. *)
@@ -211,8 +213,8 @@ Definition unit_end (c : nat) : unit_res :=
 (* the same scan in checkAlias (no failure exits) *)
 Definition unit_extent (c : nat) : nat :=
   let t := peek_tt c in
-  if is_single t then S c
-  else if N.eqb t tt_NEGATE then (if is_neg_operand (peek_tt (S c)) then S (S c) else S c)
+  if is_single_c t then S c
+  else if N.eqb t tt_NEGATE then (if is_neg_operand_c (peek_tt (S c)) then S (S c) else S c)
   else if N.eqb t tt_LPAREN then scan_group (skipn (S c) s) 1 (S c)
   else c.
 
@@ -265,7 +267,7 @@ Fixpoint search_cur (t : trie tok alias) (c : nat) : option (list alias) :=
   end.
 
 (* ---- checkAlias ---- *)
-Definition is_ref_start (t : N) : bool := N.eqb t tt_IDENTIFIER || N.eqb t tt_LPAREN.
+Definition is_ref_start (t : N) : bool := mem_tt t arg_ref_start.
 
 (* typeSensitive = true. toks: the remaining alias tokens, c: p.cur *)
 Fixpoint check_go (a : alias) (toks : list tok) (c : nat) (e : genv) (b : list binding) : option (list binding * genv) :=
